@@ -37,6 +37,7 @@ PURE_METHODS = {
     "append", "extend", "copy", "format", "substitute", "casefold", "replace", "add", "update", "pop",
 }
 LIB_FAMILIES = ("duckdb.", "snowflake.")
+LOG_METHODS = {"debug", "info", "warning", "error", "exception", "critical", "log"}
 
 
 class Node:
@@ -167,6 +168,13 @@ class CFG:
             return set()
         if isinstance(f, ast.Attribute) and f.attr in ("ExitStack",):
             return set()  # stdlib constructor that cannot fail
+        if isinstance(f, ast.Attribute) and f.attr in LOG_METHODS:
+            # the logging module swallows errors of handlers and formatting (logging.raiseExceptions only prints them)
+            d = self.prog.dotted(self._m, f) or ""
+            recv = f.value
+            bound = self._m.consts.get(recv.id) if isinstance(recv, ast.Name) else None
+            if d.startswith("logging.") or (isinstance(bound, ast.Call) and (self.prog.dotted(self._m, bound.func) or "") == "logging.getLogger"):
+                return set()
         return {"generic"}
 
     def _resolve_callee(self, call: ast.Call) -> tuple[str, str] | None:
